@@ -568,7 +568,7 @@ func runParse(c *Ctx, std *fdCapture) {
 	}
 	for _, q := range []string{"", " ", "\n", "// c", "/* c */", "\xef\xbb\xbf", "$.a.Equal(NaN)", "$.a.Equal(Inf)", "$.a.Equal(infinity)", "$.a.Equal(-Inf)", "$.a.Equal(1e400)",
 		"$.a?.b?.IsNull()", "$.a.Equal(.5)", "$.a.Equal(1.5.5)", "$.a.Equal(5.)", "$.a.Equal(1", "{$.a", "$[", "$.a.Equal (1)", "$.a.Equal(\"\\d+\")", "$.a.Equal('x')", "$.a.Equal(`r`)",
-		"$.a.Equal(\"un", "$.a.Equal(1,,2)", "$.a.Equal(1 2)", "$.a.Equal(()", "$.a.Equal(])", "$.a.Equal(?)", "$.a.Equal(x?)", "$.a[@.b]", "$.a[@.b][@.c]", "$.a[OR,@.b,@.c]"} {
+		"$.a.Equal(\"un", "$.a.Equal(1,,2)", "$.a.Equal(1 2)", `$.xs.Select("@ . a")`, `$.xs[@.a.Less(100)].Select("@.b.AnyOf(1 2)")`, `$.xs.Select("$.a /*c*/ .b")`, `{$.xs.Select("@.a.AnyOf(1 2)").Any()}`, `$.k.Equal($.xs.Select("@ .a").First())`, "$.a.Equal(()", "$.a.Equal(])", "$.a.Equal(?)", "$.a.Equal(x?)", "$.a[@.b]", "$.a[@.b][@.c]", "$.a[OR,@.b,@.c]"} {
 		emit(q, "named")
 	}
 	// bounded-exhaustive block
